@@ -1137,6 +1137,43 @@ def normalise_reduce(tree):
     return n
 
 
+def normalise_search_loops(tree):
+    """`X = None; for v in S: if P(v): X = v; break` is `X = next((v for v in S if P(v)), None)` when v is not used afterwards"""
+    n = 0
+    for fn in [f for f in ast.walk(tree) if isinstance(f, (ast.FunctionDef, ast.AsyncFunctionDef))]:
+        for node in ast.walk(fn):
+            for field in ("body", "orelse", "finalbody"):
+                stmts = getattr(node, field, None)
+                if not isinstance(stmts, list) or len(stmts) < 2 or not isinstance(stmts[0], ast.stmt):
+                    continue
+                i = 0
+                while i + 1 < len(stmts):
+                    a, f = stmts[i], stmts[i + 1]
+                    i += 1
+                    if not (isinstance(a, ast.Assign) and len(a.targets) == 1 and isinstance(a.targets[0], ast.Name) and isinstance(a.value, ast.Constant) and a.value.value is None):
+                        continue
+                    if not (isinstance(f, ast.For) and not f.orelse and isinstance(f.target, ast.Name) and len(f.body) == 1 and isinstance(f.body[0], ast.If)
+                            and not f.body[0].orelse and len(f.body[0].body) == 2 and isinstance(f.body[0].body[1], ast.Break)):
+                        continue
+                    asg = f.body[0].body[0]
+                    x, v = a.targets[0].id, f.target.id
+                    if not (isinstance(asg, ast.Assign) and len(asg.targets) == 1 and isinstance(asg.targets[0], ast.Name) and asg.targets[0].id == x
+                            and isinstance(asg.value, ast.Name) and asg.value.id == v):
+                        continue
+                    inside = {id(y) for y in ast.walk(f)}
+                    if any(isinstance(y, ast.Name) and y.id == v and id(y) not in inside for y in ast.walk(fn)):
+                        continue
+                    if any(isinstance(y, ast.Name) and y.id == x for y in ast.walk(f.body[0].test)) or any(isinstance(y, ast.Name) and y.id == x for y in ast.walk(f.iter)):
+                        continue
+                    gen = ast.GeneratorExp(elt=ast.Name(id=v, ctx=ast.Load()), generators=[ast.comprehension(target=ast.Name(id=v, ctx=ast.Store()), iter=f.iter, ifs=[f.body[0].test], is_async=0)])
+                    new = ast.Assign(targets=[ast.Name(id=x, ctx=ast.Store())], value=ast.Call(func=ast.Name(id="next", ctx=ast.Load()), args=[gen, ast.Constant(value=None)], keywords=[]))
+                    ast.copy_location(new, a)
+                    ast.fix_missing_locations(new)
+                    stmts[i - 1:i + 1] = [new]
+                    n += 1
+    return n
+
+
 def normalise_ifexp(tree):
     """`x = A if C else B` is the same statement as `if C: x = A` / `else: x = B`; likewise `return A if C else B`.
     The statement form gives every path-based rule one path per arm."""
@@ -1593,6 +1630,7 @@ def normalise_program(trees):
     reshaped = {}
     for path, tree in trees.items():
         n_ = normalise_count_loops(tree)
+        n_ += normalise_search_loops(tree)
         n_ += normalise_reduce(tree)
         n_ += normalise_next_loops(tree)
         n_ += normalise_loops(tree)
